@@ -884,12 +884,13 @@ def r_init_truth(e, R):
         if f.module.name == "__user__" or not (q.startswith("loky.initializers:") or q.startswith("loky.process_executor:") or q.startswith("loky.reusable_executor:")):
             continue
         names = {p_ for p_ in f.params + f.kwonly if p_ == "initializer"}
-        if q.startswith("loky.initializers:"):
-            names |= {p_ for p_ in f.params if "initializer" in p_}
+        if q.startswith("loky.initializers:") and any("initializer" in p_ for p_ in list(f.params) + sorted(f.locals)):
+            names |= {"initializer"} & (set(f.params) | set(f.locals))
+            names.add("\0")           # the function handles initializers: analyse it even if the scalar is only a loop target
         if not names:
             continue
         # elements unpacked from a tainted container by a for / comprehension
-        conts = {p_ for p_ in f.params if "initializer" in p_ and p_ != "initializer"}
+        conts = {p_ for p_ in list(f.params) + sorted(f.locals) if "initializer" in p_ and p_ != "initializer"}
         for n in ast.walk(f.node):
             gens = n.generators if isinstance(n, (ast.ListComp, ast.SetComp, ast.GeneratorExp, ast.DictComp)) else []
             loops = [(n.target, n.iter)] if isinstance(n, ast.For) else [(g_.target, g_.iter) for g_ in gens]
